@@ -500,6 +500,20 @@ pub fn binop(op: Bin, a: &Scalar, b: &Scalar) -> R<Scalar> {
             Bin::Xor => x ^ y,
             _ => unreachable!(),
         }),
+        // two literals that are both `int` sized but whose sum / difference / product is not: a 32 bit evaluation wraps where a
+        // wider literal type does not (the interpreters type dynamically: `c ? 0 : f()` yields a literal when c holds)
+        (Scalar::LitInt(x), Scalar::LitInt(y))
+            if matches!(op, Bin::Add | Bin::Sub | Bin::Mul)
+                && (i32::MIN as i128..=i32::MAX as i128).contains(x)
+                && (i32::MIN as i128..=i32::MAX as i128).contains(y)
+                && !(i32::MIN as i128..=i32::MAX as i128).contains(&match op {
+                    Bin::Add => x + y,
+                    Bin::Sub => x - y,
+                    _ => x * y,
+                }) =>
+        {
+            return Err(Trap::Unspecified("literal arithmetic whose result depends on the literal's width"));
+        }
         (Scalar::LitInt(x), Scalar::LitInt(y)) => Scalar::LitInt(lit_range(match op {
             Bin::Add => x.checked_add(*y).ok_or(Trap::Unspecified("literal overflow"))?,
             Bin::Sub => x.checked_sub(*y).ok_or(Trap::Unspecified("literal overflow"))?,
@@ -523,7 +537,12 @@ pub fn binop(op: Bin, a: &Scalar, b: &Scalar) -> R<Scalar> {
                     return Err(Trap::Unspecified("literal shift count out of range"));
                 }
                 lit_range(*x)?;
-                x << (*y as u32)
+                let r = x << (*y as u32);
+                // a 32 bit signed evaluation would wrap (1 << 31): the result depends on the width chosen for the literal
+                if r > i32::MAX as i128 || r < i32::MIN as i128 {
+                    return Err(Trap::Unspecified("literal shift result depends on the literal's width"));
+                }
+                r
             }
             Bin::Shr => {
                 if *y < 0 || *y > 31 {
